@@ -10,14 +10,21 @@ package shrex
 // bound for the stored square, wrong lengths, zero / unknown heights, every namespace class, from>=to, random bytes); valid
 // in-bounds requests additionally go through the real Client with the real container verification.
 //
-// L2: request bytes + observed (outcome class, opened/closed, reserved/released) vs CN.Shwap.Server (server_mismatches);
+// Behind the server the harness can make GetByHeight fail, Size() fail, the accessor call of the ResponseReader fail or panic
+// (the paths of the handler an honest store never takes).
+//
+// L2: request bytes + fault + observed (outcome class, opened/closed, reserved/released) vs CN.Shwap.Server (server_mismatches);
 //     ResponseSize of every identifier type vs the model.
-// L3: an honest reply is accepted by the client's verification and equals the stored data; unknown height => NOT_FOUND;
-//     a malformed / out-of-bounds request is never answered OK; accessor and memory are balanced; no panic; no hang.
+// L3: an honest reply is accepted by the client's verification and equals the stored data (raw payload and through the real
+//     Client); unknown height => NOT_FOUND (raw and Client: ErrNotFound); a malformed / out-of-bounds request or one whose
+//     store/accessor failed is never answered OK; accessor and memory are balanced on every path; no panic reaches the recovery
+//     middleware except the injected one, which must end in a reset; no hang (watchdog on the reply and on the handler's return).
+// A replay file (./check C09 --seed N --replay f) re-runs exactly one recorded request.
 
 import (
 	"bytes"
 	"context"
+	"encoding/hex"
 	"errors"
 	"fmt"
 	"io"
@@ -132,16 +139,97 @@ type c09Counters struct {
 	negative bool
 	resetErr int // -1 none, 0 plain Reset, else the error code
 	panics   []string
+	fault    int           // c09F*: what the harness makes fail behind the server for this request
+	started  chan struct{} // closed when the server's handler for this request has been entered
+	done     chan struct{} // closed when the server's handler for this request has returned
+	once     sync.Once
 }
+
+func c09NewCounters(fault int) *c09Counters {
+	return &c09Counters{resetErr: -1, fault: fault, started: make(chan struct{}), done: make(chan struct{})}
+}
+
+// faults injected behind the real server (Coq: Server.fault)
+const (
+	c09FNone = iota
+	c09FStore
+	c09FSize
+	c09FBuildErr
+	c09FBuildPanic
+)
+
+var c09FaultCoq = []string{"FNone", "FStore", "FSize", "FBuildErr", "FBuildPanic"}
+
+const c09InjectedPanic = "c09: injected accessor panic"
+
+var errC09Injected = errors.New("c09: injected failure")
+func (c *c09Counters) finish() { c.once.Do(func() { close(c.done) }) }
 
 type c09Store struct {
 	inner store.AccessorGetter
+	mu    sync.Mutex
 	c     *c09Counters
 }
+
+func (s *c09Store) set(c *c09Counters) { s.mu.Lock(); s.c = c; s.mu.Unlock() }
+func (s *c09Store) get() *c09Counters  { s.mu.Lock(); defer s.mu.Unlock(); return s.c }
 
 type c09Acc struct {
 	eds.AccessorStreamer
 	c *c09Counters
+}
+
+func (a *c09Acc) Size(ctx context.Context) (int, error) {
+	if a.c.fault == c09FSize {
+		return 0, errC09Injected
+	}
+	return a.AccessorStreamer.Size(ctx)
+}
+
+// build is the first accessor call of every ResponseReader: the injected failure / panic happens there.
+func (a *c09Acc) build() error {
+	switch a.c.fault {
+	case c09FBuildErr:
+		return errC09Injected
+	case c09FBuildPanic:
+		panic(c09InjectedPanic)
+	}
+	return nil
+}
+
+func (a *c09Acc) Reader() (io.Reader, error) {
+	if err := a.build(); err != nil {
+		return nil, err
+	}
+	return a.AccessorStreamer.Reader()
+}
+
+func (a *c09Acc) AxisRoots(ctx context.Context) (*share.AxisRoots, error) {
+	if err := a.build(); err != nil {
+		return nil, err
+	}
+	return a.AccessorStreamer.AxisRoots(ctx)
+}
+
+func (a *c09Acc) Sample(ctx context.Context, idx shwap.SampleCoords) (shwap.Sample, error) {
+	if err := a.build(); err != nil {
+		return shwap.Sample{}, err
+	}
+	return a.AccessorStreamer.Sample(ctx, idx)
+}
+
+func (a *c09Acc) AxisHalf(ctx context.Context, axis rsmt2d.Axis, idx int) (shwap.AxisHalf, error) {
+	if err := a.build(); err != nil {
+		return shwap.AxisHalf{}, err
+	}
+	return a.AccessorStreamer.AxisHalf(ctx, axis, idx)
+}
+
+func (a *c09Acc) RangeNamespaceData(ctx context.Context, from, to int) (shwap.RangeNamespaceData, error) {
+	if err := a.build(); err != nil {
+		return shwap.RangeNamespaceData{}, err
+	}
+	return a.AccessorStreamer.RangeNamespaceData(ctx, from, to)
 }
 
 func (a *c09Acc) Close() error {
@@ -156,10 +244,15 @@ func (s *c09Store) GetByHeight(ctx context.Context, h uint64) (eds.AccessorStrea
 	if err != nil {
 		return nil, err
 	}
-	s.c.mu.Lock()
-	s.c.opened++
-	s.c.mu.Unlock()
-	return &c09Acc{AccessorStreamer: acc, c: s.c}, nil
+	c := s.get()
+	if c.fault == c09FStore { // the block is there, the store fails otherwise
+		_ = acc.Close()
+		return nil, errC09Injected
+	}
+	c.mu.Lock()
+	c.opened++
+	c.mu.Unlock()
+	return &c09Acc{AccessorStreamer: acc, c: c}, nil
 }
 func (s *c09Store) HasByHeight(ctx context.Context, h uint64) (bool, error) {
 	return s.inner.HasByHeight(ctx, h)
@@ -223,8 +316,8 @@ type c09H struct {
 	client  *Client
 	cur     *c09Counters
 	limit   int64
-	wg      sync.WaitGroup
 	mu      sync.Mutex
+	dead    bool // a handler hung: the fixture is no longer usable, the run stops generating
 }
 
 var c09Protos = []string{"PEds", "PRow", "PSample", "PNd", "PRange"}
@@ -303,11 +396,12 @@ func newC09(t *testing.T, r *zv.Run) *c09H {
 		}
 		chain := RecoveryMiddleware(sentinel)
 		h.sv.SetStreamHandler(ProtocolID("verif", mk().Name()), func(s network.Stream) {
-			defer h.wg.Done()
 			h.mu.Lock()
 			c, lim := h.cur, h.limit
 			h.mu.Unlock()
-			cs.c = c
+			defer c.finish()
+			close(c.started)
+			cs.set(c)
 			chain(&c09Stream{Stream: s, scope: &c09Scope{StreamScope: s.Scope(), c: c, limit: lim}})
 		})
 	}
@@ -330,21 +424,21 @@ type c09Out struct {
 	Panics   []string
 	Hang     bool
 	Negative bool
+	// NotStarted: the stream never reached the handler (protocol negotiation did not complete) — nothing to judge
+	NotStarted bool
 }
 
 // raw sends request bytes on a fresh stream of protocol p and classifies the answer.
-func (h *c09H) raw(p string, req []byte, limit int64, closeWrite bool) c09Out {
-	c := &c09Counters{resetErr: -1}
+func (h *c09H) raw(p string, req []byte, limit int64, closeWrite bool, fault int) c09Out {
+	c := c09NewCounters(fault)
 	h.mu.Lock()
 	h.cur, h.limit = c, limit
 	h.mu.Unlock()
-	h.wg.Add(1)
 	ctx, cancel := context.WithTimeout(context.Background(), 30*time.Second)
 	defer cancel()
 	out := c09Out{}
 	s, err := h.cl.NewStream(ctx, h.sv.ID(), ProtocolID("verif", c09NewReq(p).Name()))
 	if err != nil {
-		h.wg.Done()
 		h.t.Fatalf("open stream: %v", err)
 	}
 	if len(req) > 0 {
@@ -352,8 +446,6 @@ func (h *c09H) raw(p string, req []byte, limit int64, closeWrite bool) c09Out {
 	}
 	if closeWrite {
 		_ = s.CloseWrite()
-	} else {
-		_ = s.Reset() // the client goes away in the middle of its request
 	}
 	var st shrexpb.Response
 	var rerr error
@@ -366,6 +458,21 @@ func (h *c09H) raw(p string, req []byte, limit int64, closeWrite bool) c09Out {
 			payload, rerr = io.ReadAll(s)
 		}
 	}()
+	if !closeWrite {
+		// the client goes away in the middle of its request: once the protocol is negotiated (the pending read above flushes the
+		// lazy multistream handshake) and the handler sits in its read, the stream is reset under it
+		select {
+		case <-c.started:
+		case <-time.After(30 * time.Second):
+			out.NotStarted = true
+		}
+		_ = s.Reset()
+		if out.NotStarted {
+			<-rdone
+			out.Class = "reset"
+			return out
+		}
+	}
 	select {
 	case <-rdone:
 	case <-time.After(30 * time.Second):
@@ -374,10 +481,8 @@ func (h *c09H) raw(p string, req []byte, limit int64, closeWrite bool) c09Out {
 		<-rdone
 	}
 	_ = s.Close()
-	done := make(chan struct{})
-	go func() { h.wg.Wait(); close(done) }()
 	select {
-	case <-done:
+	case <-c.done:
 	case <-time.After(30 * time.Second):
 		out.Hang = true
 	}
@@ -447,15 +552,15 @@ func (h *c09H) expect(p string, req []byte) (w c09Want, id request, sq *c09Squar
 		w.InBounds = x.From < x.To && x.To <= sq.k*sq.k
 	}
 	if w.InBounds {
-		p := zv.Recover(func() {
-			rd, err := id.ResponseReader(context.Background(), sq.acc)
-			if err == nil {
-				_, err = io.ReadAll(rd)
+		// what the stored square can answer, decided from the square alone: everything inside it, except a share range that spans
+		// more than one namespace (RangeNamespaceData is the data of ONE namespace; RangeNamespaceDataFromShares refuses otherwise)
+		w.BuildOK = true
+		if x, ok := id.(*shwap.RangeNamespaceDataID); ok {
+			for _, s := range sq.ods[x.From:x.To] {
+				if !s.Namespace().Equals(sq.ods[x.From].Namespace()) {
+					w.BuildOK = false
+				}
 			}
-			w.BuildOK = err == nil
-		})
-		if p != "" {
-			w.BuildOK = false
 		}
 	}
 	return
@@ -533,11 +638,13 @@ func c09Verify(id request, sq *c09Square, payload []byte) error {
 
 // clientGet runs the real client for a valid identifier and verifies the container as the getter does.
 func (h *c09H) clientGet(p string, id request, sq *c09Square) error {
-	c := &c09Counters{resetErr: -1}
+	if h.dead {
+		return nil
+	}
+	c := c09NewCounters(c09FNone)
 	h.mu.Lock()
 	h.cur, h.limit = c, 1<<40
 	h.mu.Unlock()
-	h.wg.Add(1)
 	ctx, cancel := context.WithTimeout(context.Background(), 30*time.Second)
 	defer cancel()
 	var buf bytes.Buffer
@@ -566,14 +673,94 @@ func (h *c09H) clientGet(p string, id request, sq *c09Square) error {
 			_, err = rg.WriteTo(&buf)
 		}
 	}
-	h.wg.Wait()
+	select {
+	case <-c.done:
+	case <-time.After(30 * time.Second):
+		h.dead = true
+		return errors.New("the server's handler did not finish within 30s of the client's return")
+	}
+	h.r.Count("client", p+":get")
 	if err != nil {
 		return fmt.Errorf("client.Get: %w", err)
+	}
+	if c.opened != 1 || c.closed != 1 || c.reserved != c.released {
+		return fmt.Errorf("imbalance after a served client request: opened %d closed %d reserved %d released %d", c.opened, c.closed, c.reserved, c.released)
 	}
 	return c09Verify(id, sq, buf.Bytes())
 }
 
+// clientCheck: a request that is valid, in bounds and answerable goes through the real Client; the container it returns must
+// verify against the block's roots and equal the stored data.
+func (h *c09H) clientCheck(p string, req []byte) {
+	w, id, sq := h.expect(p, req)
+	if !w.BuildOK {
+		return
+	}
+	if err := h.clientGet(p, id, sq); err != nil {
+		h.r.Violation("client-rejects:"+p, err.Error(), map[string]any{"proto": p, "client": "get", "req_hex": fmt.Sprintf("%x", req), "heights": h.heightsJSON()})
+	}
+}
+
+func (h *c09H) clientNotFoundCheck(p string, req []byte) {
+	if err := h.clientNotFound(p, req); err != nil {
+		h.r.Violation("client-notfound:"+p, err.Error(), map[string]any{"proto": p, "client": "notfound", "req_hex": fmt.Sprintf("%x", req), "heights": h.heightsJSON()})
+	}
+}
+
+// clientNotFound: the real client asking for a height the server does not hold must report ErrNotFound.
+func (h *c09H) clientNotFound(p string, req []byte) error {
+	if h.dead {
+		return nil
+	}
+	id := c09NewReq(p)
+	if _, err := id.ReadFrom(bytes.NewReader(req)); err != nil || h.squareAt(id.Height()) != nil {
+		return nil
+	}
+	c := c09NewCounters(c09FNone)
+	h.mu.Lock()
+	h.cur, h.limit = c, 1<<40
+	h.mu.Unlock()
+	ctx, cancel := context.WithTimeout(context.Background(), 30*time.Second)
+	defer cancel()
+	var resp response
+	switch id.(type) {
+	case *shwap.SampleID:
+		resp = &shwap.Sample{}
+	case *shwap.RowID:
+		resp = &shwap.Row{}
+	case *shwap.EdsID:
+		resp = &bytes.Buffer{}
+	case *shwap.NamespaceDataID:
+		resp = &shwap.NamespaceData{}
+	default:
+		resp = &shwap.RangeNamespaceData{}
+	}
+	err := h.client.Get(ctx, id, resp, h.sv.ID())
+	select {
+	case <-c.done:
+	case <-time.After(30 * time.Second):
+		h.dead = true
+		return errors.New("the server's handler did not finish within 30s of the client's return")
+	}
+	h.r.Count("client", p+":unknown-height")
+	if !errors.Is(err, ErrNotFound) {
+		return fmt.Errorf("client.Get for a height the server does not hold returned %v, not ErrNotFound", err)
+	}
+	if c.opened != c.closed || c.reserved != c.released {
+		return fmt.Errorf("imbalance after a not-found request: opened %d closed %d reserved %d released %d", c.opened, c.closed, c.reserved, c.released)
+	}
+	return nil
+}
+
 // ---------------------------------------------------------------------------------------------- one case
+
+func (h *c09H) heightsJSON() [][2]uint64 {
+	var xs [][2]uint64
+	for _, sq := range h.squares {
+		xs = append(xs, [2]uint64{sq.height, uint64(2 * sq.k)})
+	}
+	return xs
+}
 
 func (h *c09H) heightsCoq() string {
 	var xs []string
@@ -584,11 +771,27 @@ func (h *c09H) heightsCoq() string {
 }
 
 func (h *c09H) try(p, fam string, req []byte, limit int64, closeWrite bool) {
-	out := h.raw(p, req, limit, closeWrite)
+	h.tryF(p, fam, req, limit, closeWrite, c09FNone)
+}
+
+func (h *c09H) tryF(p, fam string, req []byte, limit int64, closeWrite bool, fault int) {
+	if h.dead {
+		return
+	}
+	out := h.raw(p, req, limit, closeWrite, fault)
+	if out.NotStarted {
+		h.r.Count("request", p+":"+fam+":not-negotiated")
+		return
+	}
+	if out.Hang {
+		h.dead = true // the stuck handler keeps the fixture's counters: nothing after this can be attributed
+		h.t.Logf("C09: hang on %s %s req=%x limit=%d closeWrite=%v class=%s", p, fam, req, limit, closeWrite, out.Class)
+	}
 	w, id, sq := h.expect(p, req)
-	replay := map[string]any{"proto": p, "fam": fam, "req_hex": fmt.Sprintf("%x", req), "limit": limit, "close_write": closeWrite, "observed": out}
+	replay := map[string]any{"proto": p, "fam": fam, "req_hex": fmt.Sprintf("%x", req), "limit": limit, "close_write": closeWrite,
+		"fault": c09FaultCoq[fault], "observed": out, "heights": h.heightsJSON()}
 	obs := map[string]string{"reset": "SReset", "resetlimit": "SResetLimit", "notfound": "SNF", "internal": "SINT", "ok": "SOK"}[out.Class]
-	term := zv.App("SHandle", p, zv.Bytes(req), h.heightsCoq(), zv.Z(limit), zv.Bool(w.BuildOK), obs,
+	term := zv.App("SHandle", p, zv.Bytes(req), h.heightsCoq(), zv.Z(limit), zv.Bool(w.BuildOK), c09FaultCoq[fault], obs,
 		zv.Nat(out.Opened), zv.Nat(out.Closed), zv.Z(out.Reserved), zv.Z(out.Released))
 	key := ""
 	if fam != "valid" {
@@ -597,13 +800,22 @@ func (h *c09H) try(p, fam string, req []byte, limit int64, closeWrite bool) {
 		key = "served"
 	}
 	if closeWrite { // a client that resets is judged by the oracle only: how many bytes the handler saw before is timing
-		h.g.Case(term, map[string]any{"proto": p, "fam": fam, "req_hex": fmt.Sprintf("%x", req), "limit": limit, "class": out.Class}, key)
+		h.g.Case(term, map[string]any{"proto": p, "fam": fam, "req_hex": fmt.Sprintf("%x", req), "limit": limit, "fault": c09FaultCoq[fault], "class": out.Class}, key)
 	}
 	h.r.Count("request", p+":"+fam)
 	h.r.Count("outcome", p+":"+out.Class)
 	// ---- L3
-	if len(out.Panics) > 0 {
-		h.r.Violation("server-panic:"+p, "the handler panicked: "+out.Panics[0], replay)
+	for _, pn := range out.Panics {
+		if fault != c09FBuildPanic || pn != c09InjectedPanic {
+			h.r.Violation("server-panic:"+p, "the handler panicked: "+pn, replay)
+			break
+		}
+	}
+	if fault == c09FBuildPanic && w.BuildOK && limit >= 1<<30 {
+		h.r.Count("fault", p+":panic-reached-recovery:"+fmt.Sprint(len(out.Panics) == 1))
+		if out.Class != "reset" {
+			h.r.Violation("panic-not-reset:"+p, "the accessor panicked while the answer was built and the stream was not reset: "+out.Class, replay)
+		}
 	}
 	if out.Hang {
 		h.r.Violation("server-hang:"+p, "the handler did not finish", replay)
@@ -625,6 +837,10 @@ func (h *c09H) try(p, fam string, req []byte, limit int64, closeWrite bool) {
 	case !w.Known:
 		if out.Class != "notfound" && closeWrite {
 			h.r.Violation("notfound-wrong:"+p, "a valid request for a height the store does not hold was answered "+out.Class, replay)
+		}
+	case fault != c09FNone:
+		if out.Class == "ok" {
+			h.r.Violation("fault-served:"+p, "the store / accessor failed and the request was answered OK", replay)
 		}
 	case w.BuildOK && limit >= 1<<30:
 		if out.Class != "ok" {
@@ -686,6 +902,38 @@ func TestVerifC09(t *testing.T) {
 	h.g = r.Group("server", c09Header, "scase", "server_mismatches")
 	const lim = int64(1) << 30
 
+	// ---- replay of one recorded request
+	var rp struct {
+		Proto      string `json:"proto"`
+		Fam        string `json:"fam"`
+		ReqHex     string `json:"req_hex"`
+		Limit      int64  `json:"limit"`
+		CloseWrite bool   `json:"close_write"`
+		Fault      string `json:"fault"`
+		Client     string `json:"client"` // "" (raw request), "get", "notfound"
+	}
+	if r.ReplayInput(&rp) && rp.Proto != "" {
+		req, err := hex.DecodeString(rp.ReqHex)
+		if err != nil {
+			t.Fatalf("replay: %v", err)
+		}
+		switch rp.Client {
+		case "get":
+			h.clientCheck(rp.Proto, req)
+		case "notfound":
+			h.clientNotFoundCheck(rp.Proto, req)
+		default:
+			fault := c09FNone
+			for i, n := range c09FaultCoq {
+				if n == rp.Fault {
+					fault = i
+				}
+			}
+			h.tryF(rp.Proto, rp.Fam, req, rp.Limit, rp.CloseWrite, fault)
+		}
+		return
+	}
+
 	// ---- ResponseSize of every identifier type
 	for _, p := range c09Protos {
 		for _, e := range []int{1, 2, 3, 4, 5, 6, 7, 8, 15, 16, 17, 31, 32, 33, 64, 100, 127, 128, 255, 256, 512, 1000, 1023, 1024, 1025, 2048} {
@@ -720,11 +968,7 @@ func TestVerifC09(t *testing.T) {
 		// EDS
 		h.try("PEds", "valid", c09Req("PEds", sq.height, 0, 0, nil), lim, true)
 		if sq.k <= 8 {
-			if id, err := shwap.NewEdsID(sq.height); err == nil {
-				if err := h.clientGet("PEds", &id, sq); err != nil {
-					r.Violation("client-rejects:PEds", err.Error(), map[string]any{"sq": sqi})
-				}
-			}
+			h.clientCheck("PEds", c09Req("PEds", sq.height, 0, 0, nil))
 		}
 		// rows and samples: every index from 0 to one beyond the bound, plus the extremes of the wire format
 		idx := []uint64{}
@@ -742,10 +986,7 @@ func TestVerifC09(t *testing.T) {
 			}
 			h.try("PRow", fam, c09Req("PRow", heights[0], a, 0, nil), lim, true)
 			if a < w && pick(50) {
-				id, _ := shwap.NewRowID(sq.height, int(a), int(w))
-				if err := h.clientGet("PRow", &id, sq); err != nil {
-					r.Violation("client-rejects:PRow", err.Error(), map[string]any{"sq": sqi, "row": a})
-				}
+				h.clientCheck("PRow", c09Req("PRow", sq.height, a, 0, nil))
 			}
 			for _, b := range idx {
 				if !exhaustive && !rng.Chance(4) {
@@ -757,10 +998,7 @@ func TestVerifC09(t *testing.T) {
 				}
 				h.try("PSample", fam, c09Req("PSample", heights[0], a, b, nil), lim, true)
 				if a < w && b < w && (sq.k <= 2 || rng.Chance(15)) {
-					id, _ := shwap.NewSampleID(sq.height, shwap.SampleCoords{Row: int(a), Col: int(b)}, int(w))
-					if err := h.clientGet("PSample", &id, sq); err != nil {
-						r.Violation("client-rejects:PSample", err.Error(), map[string]any{"sq": sqi, "row": a, "col": b})
-					}
+					h.clientCheck("PSample", c09Req("PSample", sq.height, a, b, nil))
 				}
 			}
 		}
@@ -772,11 +1010,7 @@ func TestVerifC09(t *testing.T) {
 			}
 			h.try("PNd", fam, c09Req("PNd", sq.height, 0, 0, ns), lim, true)
 			if fam == "valid" {
-				nsv, _ := libshare.NewNamespaceFromBytes(ns)
-				id, _ := shwap.NewNamespaceDataID(sq.height, nsv)
-				if err := h.clientGet("PNd", &id, sq); err != nil {
-					r.Violation("client-rejects:PNd", err.Error(), map[string]any{"sq": sqi, "ns": fmt.Sprintf("%x", ns)})
-				}
+				h.clientCheck("PNd", c09Req("PNd", sq.height, 0, 0, ns))
 			}
 		}
 		// ranges: every (from, to) up to one beyond the square, plus the extremes
@@ -802,12 +1036,41 @@ func TestVerifC09(t *testing.T) {
 				}
 				h.try("PRange", fam, c09Req("PRange", sq.height, a, b, nil), lim, true)
 				if fam == "valid" && (sq.k <= 2 || rng.Chance(10)) {
-					if w2, id, _ := h.expect("PRange", c09Req("PRange", sq.height, a, b, nil)); w2.BuildOK {
-						if err := h.clientGet("PRange", id, sq); err != nil {
-							r.Violation("client-rejects:PRange", err.Error(), map[string]any{"sq": sqi, "from": a, "to": b})
-						}
-					}
+					h.clientCheck("PRange", c09Req("PRange", sq.height, a, b, nil))
 				}
+			}
+		}
+		// the edges of this square and of its first namespace run, always (also for the sampled widths)
+		if !exhaustive {
+			for _, c := range [][2]uint64{{0, 0}, {w - 1, w - 1}, {w - 1, w}, {w, w - 1}, {0, w}, {w, 0}, {w, w}} {
+				fam := "valid"
+				if c[0] >= w || c[1] >= w {
+					fam = "coord-beyond"
+				}
+				h.try("PSample", fam, c09Req("PSample", sq.height, c[0], c[1], nil), lim, true)
+				h.clientCheck("PSample", c09Req("PSample", sq.height, c[0], c[1], nil))
+			}
+			for _, a := range []uint64{0, w - 1, w} {
+				fam := "valid"
+				if a >= w {
+					fam = "row-beyond"
+				}
+				h.try("PRow", fam, c09Req("PRow", sq.height, a, 0, nil), lim, true)
+				h.clientCheck("PRow", c09Req("PRow", sq.height, a, 0, nil))
+			}
+			r0, rl := sq.runs[0], sq.runs[len(sq.runs)-1]
+			for _, c := range [][2]uint64{{0, 1}, {0, n}, {0, n + 1}, {n - 1, n}, {n - 1, n + 1}, {n, n + 1}, {n + 1, n + 2},
+				{uint64(r0.from), uint64(r0.to)}, {uint64(r0.from), uint64(r0.to) + 1}, {uint64(r0.to) - 1, uint64(r0.to) + 1},
+				{uint64(rl.from), uint64(rl.to)}, {uint64(rl.from), n}, {1, uint64(sq.k)}, {1, uint64(sq.k) + 1}, {0, uint64(sq.k)}, {uint64(sq.k) - 1, uint64(2*sq.k) + 1}} {
+				fam := "valid"
+				switch {
+				case c[0] >= c[1]:
+					fam = "from>=to"
+				case c[1] > n:
+					fam = "range-beyond"
+				}
+				h.try("PRange", fam, c09Req("PRange", sq.height, c[0], c[1], nil), lim, true)
+				h.clientCheck("PRange", c09Req("PRange", sq.height, c[0], c[1], nil))
 			}
 		}
 		// zero / unknown heights, wrong lengths, a tight memory budget, a client that stops sending
@@ -823,6 +1086,10 @@ func TestVerifC09(t *testing.T) {
 			h.try(p, "long", append(append([]byte{}, good...), rng.Bytes(1+rng.Intn(30))...), lim, true)
 			h.try(p, "tight-budget", good, int64(rng.Intn(2000)), true)
 			h.try(p, "tight-budget", good, 0, true)
+			for f := c09FStore; f <= c09FBuildPanic; f++ { // the store / the accessor fails or panics behind the server
+				h.tryF(p, "fault", good, lim, true, f)
+			}
+			h.clientNotFoundCheck(p, c09Req(p, sq.height+1000, 0, 1, ns))
 			if sqi == 1 {
 				h.try(p, "client-resets", good[:len(good)-1], lim, false)
 				h.try(p, "client-resets", nil, lim, false)
@@ -830,7 +1097,7 @@ func TestVerifC09(t *testing.T) {
 		}
 	}
 	// ---- random and mutated byte strings
-	for i, n := 0, r.N(400, 8000); i < n; i++ {
+	for i, n := 0, r.N(1200, 20000); i < n; i++ {
 		p := zv.Pick(rng, c09Protos)
 		sq := zv.Pick(rng, h.squares)
 		var req []byte
